@@ -17,12 +17,18 @@ facts known by construction are checked directly, and fingerprint + serialisatio
 definition are identical before and after.
 """
 import io
+import os
+import pickle
+import select
+import signal
+import time
 import warnings
 import zlib
 
 from sim import factory
 from sim import xtce_family as xf
-from sim.kernel import LivenessViolation, Pipe, SimDeadlock, SimRaw, SimSocket, StepBudgetExceeded, World
+from sim.kernel import HarnessBug, LivenessViolation, Pipe, SimDeadlock, SimRaw, SimSocket, StepBudgetExceeded, World
+from sim.procs import in_pristine_child
 from sim.runner import Outcome
 
 ID = "C11"
@@ -30,7 +36,7 @@ LEVEL = "exploration"
 ISOLATE = True
 RUN_WALL_S = 60
 TIERS = {
-    "quick": {"cases": 8_000, "episode": 1, "selftest": 48, "wall_cap_s": 900, "shrink_s": 90},
+    "quick": {"cases": 6_000, "episode": 1, "selftest": 48, "wall_cap_s": 900, "shrink_s": 90},
     "thorough": {"cases": 1_000_000, "episode": 1, "selftest": 512, "wall_cap_s": 4 * 3600, "shrink_s": 180},
 }
 RULE = ("each case is one freshly forked process: 1-2 drawn XTCE-family documents, 1-6 generators with drawn options "
@@ -55,7 +61,8 @@ ASSUMPTIONS = [
     "both sides of the main comparison are the library (alone vs interleaved): the property is that they agree; category "
     "facts (unknown APID -> one error object carrying the seven header values when reporting is on, nothing when off; "
     "over-long packet withheld when parse_bad_pkts=False) are checked by construction in addition",
-    "warnings are compared by (category, text) between the two library computations, never against text of my own",
+    "warnings are not part of the statement: a difference between the warnings raised interleaved and alone is counted "
+    "(probe warnings_differ_from_alone) but never reported",
     "generators are advanced by one thread; no pre-emption inside a next() call",
     "a generator whose own source fails with an injected I/O error (disk EIO, connection reset, receive timeout) may raise "
     "that error; what it yielded before must be a prefix of the alone-results; every other generator is judged in full",
@@ -72,7 +79,9 @@ def vacuity(agg):
 EXPECTED_PROBES = ("gen_switch", "gen_close", "load_between_next", "direct_parse_between", "unknown_apid_packet",
                    "ambiguous_packet", "dead_sub_packet", "long_packet", "reporting_on", "reporting_off", "skip_bad",
                    "headers_only", "shared_definition_2plus", "socket_source", "file_source", "two_definitions",
-                   "source_fault_eio", "source_fault_rst", "source_fault_stall_timeout", "direct_parse_same_raw_object")
+                   "source_fault_eio", "source_fault_rst", "source_fault_stall_timeout", "direct_parse_same_raw_object", "segment_group",
+                   "unfinished_segment_group", "packet_inside_open_group")
+# (probe warnings_differ_from_alone is expected to stay at 0 on the unchanged tree; it is informational)
 
 _packets = factory.import_library()
 import lxml.etree as _ET  # noqa: E402
@@ -81,15 +90,53 @@ from space_packet_parser.xtce.definitions import XtcePacketDefinition  # noqa: E
 from space_packet_parser.exceptions import UnrecognizedPacketTypeError  # noqa: E402
 
 
+_NOTHING = object()
+CAT_LETTER = {"leaf": "R", "long": "L", "short": "S", "unknown": "U", "ambiguous": "A", "dead_sub": "D", "group": "G", "open_group": "g"}
+
+
 def load(xml, rd):
     with warnings.catch_warnings():
         warnings.simplefilter("ignore")
         return XtcePacketDefinition.from_xtce(io.BytesIO(xml), xtce_ns_prefix=xf.ns_prefix_arg(rd))
 
 
+def unit_stream(unit, k):
+    """A stream unit is one packet (bytes) or, for generators that combine segments, one segment group (tuple of
+    packets: FIRST, CONTINUATION*, [LAST]) delivered contiguously. Each packet is preceded by k foreign bytes."""
+    if isinstance(unit, bytes):
+        return (b"\xEE" * k) + unit
+    return b"".join((b"\xEE" * k) + p for p in unit)
+
+
+def make_group(base, nseg_draws, sh, complete=True, inter=None):
+    """Split the data field of the unsegmented packet ``base`` into a FIRST / CONTINUATION* / LAST group whose
+    reassembly (first packet whole + later data fields minus ``sh`` secondary-header bytes) has base's data field."""
+    data = base[6:]
+    cuts = sorted(set(1 + (d % max(1, len(data) - 1)) for d in nseg_draws if len(data) > 1))
+    parts = [data[a:b] for a, b in zip([0] + cuts, cuts + [len(data)])]
+    if len(parts) < 2:
+        return None
+    w0 = base[:2]
+    c0 = int.from_bytes(base[2:4], "big") & 0x3FFF
+    segs = []
+    for j, part in enumerate(parts):
+        flag = 1 if j == 0 else (2 if j == len(parts) - 1 else 0)
+        body = part if j == 0 else (b"\x5A" * sh) + part
+        w1 = (flag << 14) | ((c0 + j) & 0x3FFF)
+        segs.append(w0 + w1.to_bytes(2, "big") + (len(body) - 1).to_bytes(2, "big") + body)
+    if not complete:
+        segs = segs[:-1]
+    if inter is not None and len(segs) >= 2:
+        # a packet of ANOTHER APID between two segments: the generator yields it while the group is still open, so the
+        # scheduler can switch to another generator in the middle of a group
+        at = 1 + inter[0] % (len(segs) - 1)
+        segs = segs[:at] + [inter[1]] + segs[at:]
+    return tuple(segs)
+
+
 def alone(defn, pkt, k, opts):
-    """What a fresh generator with ``opts`` yields for this one packet: (items, warnings) or None if it raises."""
-    src = (b"\xEE" * k) + pkt
+    """What a fresh generator with ``opts`` yields for this one stream unit: (items, warnings) or None if it raises."""
+    src = unit_stream(pkt, k)
     with warnings.catch_warnings(record=True) as rec:
         warnings.simplefilter("always")
         try:
@@ -148,7 +195,6 @@ def run(ch, render=False):
     enabled = {f: ch.chance(2, 3, "en_" + f) for f in ("gen_close", "load_between_next", "direct_parse_between")}
     enabled["source_fault"] = ch.chance(1, 3, "en_source_fault")
     gens = []
-    replaced = 0
     other_xml = None
     for gi in range(n_gens):
         di = ch.draw(n_defs, "def_of_gen")
@@ -165,7 +211,7 @@ def run(ch, render=False):
         if ch.chance(1, 8, "o_hdronly"):
             opts["ccsds_headers_only"] = True
             w.probe("headers_only")
-        if ch.chance(1, 6, "o_combine"):
+        if ch.chance(1, 3, "o_combine"):
             opts["combine_segmented_packets"] = True
             if ch.chance(1, 2, "o_sh"):
                 opts["secondary_header_bytes"] = ch.pick((2, 4), "o_shv")
@@ -174,9 +220,13 @@ def run(ch, render=False):
         k = ch.weighted([(6, 0), (1, 4), (1, 1)], "k")
         rs = ch.pick((None, 7, 1, 64, 4096), "read_size")
         n_pk = 1 + ch.draw(ch.pick((4, 8, 25), "npk_max"), "n_pk")
-        pkts, cats, alone_default = [], [], []
+        # candidates are only BUILT here; nothing is parsed in this process before the interleaving starts (process-wide
+        # state that only grows would otherwise be saturated beforehand and hide itself): classification and the
+        # alone-expectations are computed in children forked from this still pristine process
+        cands = []
         for pi in range(n_pk):
-            cat = ch.weighted([(8, "leaf"), (2, "unknown"), (2, "long"), (1, "short"), (1, "ambiguous"), (1, "dead_sub")], "cat")
+            cat = ch.weighted([(8, "leaf"), (2, "unknown"), (2, "long"), (1, "short"), (1, "ambiguous"), (1, "dead_sub")]
+                              + ([(6, "group"), (1, "open_group")] if opts.get("combine_segmented_packets") else []), "cat")
             sub = ch.draw(1 << 16, "sub")
             cnt = (gi * 1000 + pi) % 16384
             leaf = doc.leaves[ch.draw(len(doc.leaves), "leaf")]
@@ -184,7 +234,25 @@ def run(ch, render=False):
                 cat = "unknown"
             if cat == "dead_sub" and doc.dead_sub is None:
                 cat = "unknown"
-            if cat == "leaf":
+            base = None
+            if cat in ("group", "open_group"):
+                # a segment group whose reassembly is a packet of this leaf (only for generators that combine segments)
+                whole = xf.encode_packet(doc, leaf["chain"], leaf["apid"], leaf["fixed"], sub, count=cnt)
+                inter = None
+                if ch.chance(1, 2, "seg_inter"):
+                    others = [lf for lf in doc.leaves if lf["apid"] != leaf["apid"]]
+                    if others:
+                        ol = others[ch.draw(len(others), "inter_leaf")]
+                        ip = xf.encode_packet(doc, ol["chain"], ol["apid"], ol["fixed"], ch.draw(1 << 16, "inter_sub"), count=cnt + 7)
+                    else:
+                        ip = xf.encode_packet(doc, ["CCSDSPacket"], doc.unknown_apids[0], {}, 0, count=cnt + 7)
+                    inter = (ch.draw(8, "inter_at"), ip)
+                    w.probe("packet_inside_open_group")
+                p = make_group(whole, [ch.draw(1 << 12, "seg_cut") for _ in range(1 + ch.draw(3, "nseg"))],
+                               opts.get("secondary_header_bytes", 0), complete=(cat == "group"), inter=inter)
+                if p is None:
+                    p, cat = whole, "leaf"
+            elif cat == "leaf":
                 p = xf.encode_packet(doc, leaf["chain"], leaf["apid"], leaf["fixed"], sub, count=cnt)
             elif cat == "unknown":
                 p = xf.encode_packet(doc, ["CCSDSPacket"], doc.unknown_apids[ch.draw(2, "unk")], {}, sub, count=cnt)
@@ -196,35 +264,17 @@ def run(ch, render=False):
                 ds = doc.dead_sub
                 p = xf.encode_packet(doc, ds["chain"], ds["apid"], ds["fixed"], sub, count=cnt)
             elif cat == "long":
-                p = xf.encode_packet(doc, leaf["chain"], leaf["apid"], leaf["fixed"], sub, count=cnt)
                 # "over-long" is only known by construction if the packet without the extra bytes is consumed exactly
-                # (decided by the library itself on the untouched oracle definition; no field of the family depends on
-                # the length field, so extra trailing bytes are then certainly left over)
-                res0, err0 = alone(oracle_a[di], p, 0, {"yield_unrecognized_packet_errors": True})
-                exact = (err0 is None and len(res0[0]) == 1 and res0[0][0][0] == "PKT" and res0[0][0][3] == len(p) * 8)
-                p = relen(p, p[6:] + factory.payload(sub + 7, 1 + sub % 3))
-                if not exact:
-                    cat = "leaf"
+                # (decided by the library itself, in the classification child; no field of the family depends on the
+                # length field, so extra trailing bytes are then certainly left over)
+                base = xf.encode_packet(doc, leaf["chain"], leaf["apid"], leaf["fixed"], sub, count=cnt)
+                p = relen(base, base[6:] + factory.payload(sub + 7, 1 + sub % 3))
             else:  # short
                 p = xf.encode_packet(doc, leaf["chain"], leaf["apid"], leaf["fixed"], sub, count=cnt)
                 if len(p) > 7:
                     p = relen(p, p[6:len(p) - 1 - (sub % max(1, len(p) - 7))])
-            # plan-time classification: anything whose stand-alone parse raises is replaced
-            _res, err = alone(oracle_a[di], p, 0, {"yield_unrecognized_packet_errors": True})
-            if err is not None:
-                replaced += 1
-                p = xf.encode_packet(doc, ["CCSDSPacket"], doc.unknown_apids[0], {}, 0, count=cnt)
-                cat = "unknown"
-                _res, err = alone(oracle_a[di], p, 0, {"yield_unrecognized_packet_errors": True})
-                if err is not None:
-                    p = None
-            if p is not None:
-                pkts.append(p)
-                cats.append(cat)
-                alone_default.append(_res[0])        # what parsing this packet alone gives (default options, reporting on)
-                if cat in ("unknown", "ambiguous", "dead_sub", "long"):
-                    w.probe({"unknown": "unknown_apid_packet", "ambiguous": "ambiguous_packet", "dead_sub": "dead_sub_packet",
-                             "long": "long_packet"}[cat])
+            fallback = xf.encode_packet(doc, ["CCSDSPacket"], doc.unknown_apids[0], {}, 0, count=cnt)
+            cands.append((cat, p, base, fallback))
         srckind = ch.weighted([(4, "bytes"), (3, "file"), (3, "socket")], "src")
         # source faults: ONE generator's disk or link fails mid-stream; the others must not notice
         inject = "none"
@@ -233,28 +283,68 @@ def run(ch, render=False):
                 inject = ch.weighted([(3, "none"), (1, "eio")], "inject")
             elif srckind == "socket":
                 inject = ch.weighted([(3, "none"), (1, "rst"), (1, "stall_timeout")], "inject")
-        gens.append(dict(di=di, opts=opts, k=k, rs=rs, pkts=pkts, cats=cats, src=srckind, inject=inject,
-                         alone_default=alone_default, raws=None))
+        gens.append(dict(di=di, opts=opts, k=k, rs=rs, cands=cands, src=srckind, inject=inject, raws=None))
+
+    # ---- child 1 (pristine fork): classify the candidates; anything whose stand-alone parse raises is replaced ----------
+    def classify():
+        res = []
+        rep_ = 0
+        for g in gens:
+            pk_, ct_, ad_ = [], [], []
+            for (cat, p, base, fallback) in g["cands"]:
+                if cat == "long":
+                    r0, e0 = alone(oracle_a[g["di"]], base, 0, {"yield_unrecognized_packet_errors": True})
+                    exact = (e0 is None and len(r0[0]) == 1 and r0[0][0][0] == "PKT" and r0[0][0][3] == len(base) * 8)
+                    if not exact:
+                        cat = "leaf"
+                copts = {"yield_unrecognized_packet_errors": True}
+                if not isinstance(p, bytes):
+                    copts.update({o: v for o, v in g["opts"].items() if o in ("combine_segmented_packets", "secondary_header_bytes")})
+                r, e = alone(oracle_a[g["di"]], p, 0, copts)
+                if e is not None:
+                    rep_ += 1
+                    p, cat = fallback, "unknown"
+                    r, e = alone(oracle_a[g["di"]], p, 0, {"yield_unrecognized_packet_errors": True})
+                    if e is not None:
+                        continue
+                pk_.append(p)
+                ct_.append(cat)
+                ad_.append(r[0])            # what parsing this packet alone gives (default options, reporting on)
+            res.append((pk_, ct_, ad_))
+        return res, rep_
+    cls, replaced = in_pristine_child(classify)
+    for g, (pk_, ct_, ad_) in zip(gens, cls):
+        g["pkts"], g["cats"], g["alone_default"] = pk_, ct_, ad_
+        for cat in ct_:
+            if cat in ("unknown", "ambiguous", "dead_sub", "long", "group", "open_group"):
+                w.probe({"unknown": "unknown_apid_packet", "ambiguous": "ambiguous_packet", "dead_sub": "dead_sub_packet",
+                         "long": "long_packet", "group": "segment_group", "open_group": "unfinished_segment_group"}[cat])
     if replaced:
         w.probe("replaced_raising_packet", replaced)
 
-    # ---- expected: each packet alone, fresh generator, separate definition objects, two orders -----
-    for g in gens:
-        exp = []
-        for p in g["pkts"]:
-            res, err = alone(oracle_a[g["di"]], p, g["k"], g["opts"])
-            exp.append(res if err is None else ("RAISES", err))
-        exp_rev = []
-        for p in reversed(g["pkts"]):
-            res, err = alone(oracle_b[g["di"]], p, g["k"], g["opts"])
-            exp_rev.append(res if err is None else ("RAISES", err))
-        exp_rev.reverse()
+    # ---- expected: each packet alone, fresh generator, separate definition objects, two orders, each order in its own
+    #      child forked from the still pristine process (children 2 and 3) ------------------------------------------------
+    def expectations(oracles, reverse):
+        allexp = []
+        for g in gens:
+            seq = list(reversed(g["pkts"])) if reverse else list(g["pkts"])
+            e_ = []
+            for p in seq:
+                res, err = alone(oracles[g["di"]], p, g["k"], g["opts"])
+                e_.append(res if err is None else ("RAISES", err))
+            if reverse:
+                e_.reverse()
+            allexp.append(e_)
+        return allexp
+    exp_fwd = in_pristine_child(lambda: expectations(oracle_a, False))
+    exp_rev = in_pristine_child(lambda: expectations(oracle_b, True))
+    for g, exp, exr in zip(gens, exp_fwd, exp_rev):
         g["exp"] = exp
-        if exp != exp_rev and out.violation is None:
-            j = next(i for i in range(len(exp)) if exp[i] != exp_rev[i])
+        if exp != exr and out.violation is None:
+            j = next(i for i in range(len(exp)) if exp[i] != exr[i])
             out.fail("alone_parse_depends_on_history",
                      f"parsing packet {j} of a stream alone on a fresh generator gives different results depending on which "
-                     f"other packets the same definition object parsed before (category {g['cats'][j]}, options {g['opts']})")
+                     f"other packets were parsed before in the same process (category {g['cats'][j]}, options {g['opts']})")
     before = [(xf.fingerprint(d), serial(d)) for d in defs]
     shared = {}
     for g in gens:
@@ -265,7 +355,7 @@ def run(ch, render=False):
     # ---- sources and generator objects --------------------------------------------------------------
     socks = []
     for gi, g in enumerate(gens):
-        stream = b"".join((b"\xEE" * g["k"]) + p for p in g["pkts"])
+        stream = b"".join(unit_stream(u, g["k"]) for u in g["pkts"])
         if g["src"] == "bytes":
             source = stream
         elif g["src"] == "file":
@@ -347,14 +437,15 @@ def run(ch, render=False):
                 if act == "direct_parse_between":
                     w.fault("direct_parse_between")
                     w.ev(f"gen{gi}", "direct_parse")
-                    if g["pkts"]:
-                        pi = ch.draw(len(g["pkts"]), "dp_which")
+                    singles = [i_ for i_, u_ in enumerate(g["pkts"]) if isinstance(u_, bytes)]
+                    if singles:
+                        pi = singles[ch.draw(len(singles), "dp_which")]
                         # either from plain bytes, or from the RawPacketData object the public framer yields for this
                         # packet -- the SAME object every time, so a second parse of it must give the same result
                         if ch.chance(1, 2, "dp_rawobj"):
                             if g["raws"] is None:
-                                g["raws"] = list(_packets.ccsds_generator(b"".join(g["pkts"])))
-                            raw_in = g["raws"][pi] if pi < len(g["raws"]) else g["pkts"][pi]
+                                g["raws"] = dict(zip(singles, _packets.ccsds_generator(b"".join(g["pkts"][i_] for i_ in singles))))
+                            raw_in = g["raws"].get(pi, g["pkts"][pi])
                             w.probe("direct_parse_same_raw_object")
                         else:
                             raw_in = g["pkts"][pi]
@@ -378,11 +469,9 @@ def run(ch, render=False):
                 last_g = gi
                 with warnings.catch_warnings(record=True) as rec:
                     warnings.simplefilter("always")
+                    item = _NOTHING
                     try:
                         item = next(g["gen"])
-                        g["items"].append(xf.canon_item(item))
-                        g["objs"].append(item)          # kept: what was yielded must still look the same at the end
-                        w.ev(f"gen{gi}", "item", g["items"][-1][0])
                     except StopIteration:
                         g["state"] = "done"
                         w.ev(f"gen{gi}", "stop")
@@ -401,6 +490,10 @@ def run(ch, render=False):
                             w.ev(f"gen{gi}", "io_error", type(e).__name__)
                         else:
                             err = ("exception", f"{type(e).__name__}: {e}", gi)
+                if item is not _NOTHING:
+                    g["items"].append(xf.canon_item(item))          # (harness code: outside the library try block)
+                    g["objs"].append(item)                          # kept: what was yielded must still look the same at the end
+                    w.ev(f"gen{gi}", "item", g["items"][-1][0])
                 g["warns"] += [(w_.category.__name__, str(w_.message)) for w_ in rec]
     finally:
         for g in gens:
@@ -415,7 +508,7 @@ def run(ch, render=False):
     def describe(gi):
         g = gens[gi]
         return (f"generator {gi} (definition {g['di']}, options {g['opts']}, k={g['k']}, read_size={g['rs']}, source {g['src']}, "
-                f"packets {''.join(c[0].upper() for c in g['cats'])})")
+                f"units {''.join(CAT_LETTER[c] for c in g['cats'])})")
 
     if out.violation is None and err is not None:
         out.fail("exception" if err[0] == "exception" else err[0],
@@ -457,10 +550,9 @@ def run(ch, render=False):
             else:
                 ok_w = g["warns"] == []
             if not ok_w:
-                out.fail("warnings_differ_from_alone",
-                         f"{describe(gi)}: warnings raised while interleaved {g['warns'][:3]}... differ from those raised when "
-                         f"each packet is parsed alone {exp_warns[:3]}... ({len(g['warns'])} vs {len(exp_warns)})")
-                break
+                # the statement is about the ITEMS; warnings (texts, counts, rate limiting) are not part of it, so a difference
+                # is recorded as a probe and never as a violation
+                w.probe("warnings_differ_from_alone")
             # by construction
             if g["state"] == "done" and not g["opts"].get("ccsds_headers_only"):
                 doc = docs[g["di"]]
@@ -475,7 +567,7 @@ def run(ch, render=False):
                         if g["opts"].get("yield_unrecognized_packet_errors"):
                             hv = factory.header_tuple(p)
                             good = (len(mine) == 1 and mine[0][0] == "ERR" and mine[0][2] is not None and
-                                    [int(v[1][1]) for v in mine[0][2][1][:7]] == list(hv))
+                                    [v[1][1] for v in mine[0][2][1][:7]] == [repr(x) for x in hv])
                             if not good:
                                 out.fail("unrecognized_not_reported",
                                          f"{describe(gi)}: packet {pi} ({cat}) must appear as one error object carrying the seven "
@@ -516,14 +608,14 @@ def run(ch, render=False):
     out.probes = w.probes
     out.sim_ns = w.now
     out.sched = tuple((e[2], e[3]) for e in w.log if e[2].startswith("gen") or e[2] == "proc")
-    interesting = any(c in ("unknown", "ambiguous", "dead_sub", "long") for g in gens for c in g["cats"][:-1])
+    interesting = any(c in ("unknown", "ambiguous", "dead_sub", "long", "group", "open_group") for g in gens for c in g["cats"][:-1])
     out.nontrivial = (switches >= 1 and any(v >= 2 for v in shared.values())) or interesting
     if render:
         out.sample = {
             "documents": [{"name": d.name, "features": sorted(d.features), "rendering": f"{r['ns']}/{r['comments']}/{r['ws']}"}
                           for d, r in zip(docs, rds)],
             "generators": [{"definition": g["di"], "options": g["opts"], "skip_header_bytes": g["k"], "read_size": g["rs"],
-                            "source": g["src"], "packets": "".join({"leaf": "R", "long": "L", "short": "S", "unknown": "U", "ambiguous": "A", "dead_sub": "D"}[c] for c in g["cats"]),
+                            "source": g["src"], "packets": "".join(CAT_LETTER[c] for c in g["cats"]),
                             "items": len(g["items"]), "warnings": len(g["warns"]), "final_state": g["state"]} for g in gens],
             "schedule": [f"{e[2]}:{e[3]}" for e in w.log if e[2].startswith("gen") or e[2] == "proc"][:80],
             "switches": switches, "replaced_raising_packets": replaced,
